@@ -319,6 +319,7 @@ thread_local! {
 	pub static SLEEPS_IN_CASE: RefCell<u32> = RefCell::new(0);
 }
 static WATCHDOG_ON: AtomicBool = AtomicBool::new(false);
+static STOPPED_EARLY: AtomicBool = AtomicBool::new(false);
 
 pub const HANG_SECS: u64 = 60;
 pub const LIVELOCK_SLEEPS: u32 = 4;
@@ -559,6 +560,13 @@ pub fn par_each<T: Send, I: Iterator<Item = T> + Send>(items: I, work: impl Fn(T
 							b
 						};
 						if batch.is_empty() {
+							break;
+						}
+						// a broken tree can make every case fail slowly: the verdict is settled long before
+						if cx.stats.viol_count.load(Ordering::Relaxed) > 2000 {
+							if !STOPPED_EARLY.swap(true, Ordering::SeqCst) {
+								cx.cap("enumeration stopped early after more than 2000 violating cases".into());
+							}
 							break;
 						}
 						for x in batch {
